@@ -564,6 +564,74 @@ pub fn run(ctx: &Ctx) -> Result<Ev, String> {
             o => total.violation(Violation { sig: "c15:messages:macro-body:rejected".into(), what: format!("[{}] {}", tag, o.brief()), replay: Check::MustBuild { src: src.to_string() }.to_json() }),
         }
     }
+    // messages from macro bodies and from plain lines across segment switches: every macro is defined
+    // immediately before its only call, so textual order and order of assembly are the same ascending
+    // list of line numbers; sections change the segment (.dseg/.eseg/.cseg, forward .org in flash)
+    {
+        let n_sections = if ctx.thorough { 4 } else { 3 };
+        let combos = 15usize.pow(n_sections as u32);
+        let step = if ctx.thorough { 7 } else { 1 };
+        let mut k = 0usize;
+        while k < combos {
+            let mut lines: Vec<String> = vec![];
+            let mut want: Vec<(String, usize)> = vec![];
+            let mut seg = 0u8; // 0 code 1 data 2 eeprom
+            let mut x = k;
+            let (mut switches, mut macro_msgs) = (0, 0);
+            for i in 0..n_sections {
+                let (sk, mk) = (x % 5, (x / 5) % 3);
+                x /= 15;
+                match sk {
+                    1 => { lines.push(".dseg".into()); seg = 1; switches += 1; }
+                    2 => { lines.push(".eseg".into()); seg = 2; switches += 1; }
+                    3 => { lines.push(".cseg".into()); seg = 0; switches += 1; }
+                    4 => { lines.push(".cseg".into()); lines.push(format!(".org {:#x}", 0x100 * (i + 1))); seg = 0; switches += 1; }
+                    _ => {}
+                }
+                let item = ["nop", ".byte 1", ".db 1"][seg as usize];
+                lines.push(format!(".message \"plain {}\"", i));
+                want.push((format!("plain {}", i), lines.len()));
+                if mk > 0 {
+                    lines.push(format!(".macro c15s{}", i));
+                    if mk == 1 {
+                        lines.push(format!(".warning \"in macro {}\"", i));
+                        want.push((format!("in macro {}", i), lines.len()));
+                        macro_msgs += 1;
+                    }
+                    lines.push(item.to_string());
+                    lines.push(".endm".into());
+                    lines.push(format!("c15s{}", i));
+                }
+                lines.push(item.to_string());
+            }
+            lines.push(".message \"end\"".into());
+            want.push(("end".into(), lines.len()));
+            let src = lines.join("\n") + "\n";
+            total.eval();
+            total.class("messages-across-segments-and-macro-calls");
+            if switches >= 1 && macro_msgs >= 1 {
+                total.nt(fp(&src));
+            }
+            match build(&src) {
+                Outcome::Ok(r) => {
+                    let ok = r.messages.len() == want.len() && r.messages.iter().zip(&want).all(|(g, (t, l))| g.contains(t.as_str()) && has_token(g, &l.to_string()));
+                    if !ok {
+                        total.violation(Violation {
+                            sig: "c15:messages:segments-and-macros:order".into(),
+                            what: format!("`{}` gives {:?}; expected (ascending lines) {:?}", src.replace('\n', " | "), r.messages, want),
+                            replay: json!({"kind": "message_orders", "src": src, "orders": [want.iter().map(|(t, l)| json!([t, l])).collect::<Vec<_>>()]}),
+                        });
+                        break;
+                    }
+                }
+                o => {
+                    total.violation(Violation { sig: "c15:messages:segments-and-macros:rejected".into(), what: format!("`{}`: {}", src.replace('\n', " | "), o.brief()), replay: Check::MustBuild { src: src.clone() }.to_json() });
+                    break;
+                }
+            }
+            k += step;
+        }
+    }
     if total.has_violation() {
         return Ok(total);
     }
